@@ -278,7 +278,7 @@ func ruleC11R4(c *Ctx) {
 		fBuf := pkg + ".intermediateChunk.writeBuffer"
 		fComp := pkg + ".intermediateChunk.compressor"
 		var closes, reads, resets []ssa.CallInstruction
-		for _, s := range callsIn(fn) {
+		for _, s := range c.callsInR(fn) {
 			cc := s.Common()
 			if cc.IsInvoke() && cc.Method.Name() == "Close" && fieldOf(cc.Value) == fComp {
 				closes = append(closes, s)
@@ -299,7 +299,7 @@ func ruleC11R4(c *Ctx) {
 		}
 		// returned Data is a copy: every value that can reach the Data field (through phis) is a copy
 		okCopy := false
-		for _, st := range storesToField(fn, "base.LogChunk.Data") {
+		for _, st := range c.storesToFieldR(fn, "base.LogChunk.Data") {
 			okCopy = true
 			var leaves []ssa.Value
 			seen := map[ssa.Value]bool{}
@@ -315,6 +315,20 @@ func ruleC11R4(c *Ctx) {
 						walk(e)
 					}
 					return
+				}
+				// the result of a private helper of FinalizeChunk: what the helper returns
+				idx := 0
+				cv := v
+				if ex, ok := v.(*ssa.Extract); ok {
+					cv, idx = ex.Tuple, ex.Index
+				}
+				if cl, ok := cv.(*ssa.Call); ok {
+					if g := cl.Common().StaticCallee(); g != nil && c.helpersOf(fn)[g] {
+						for _, rv := range returnedValues(g, idx) {
+							walk(rv.Val)
+						}
+						return
+					}
 				}
 				leaves = append(leaves, v)
 			}
@@ -343,7 +357,7 @@ func ruleC11R4(c *Ctx) {
 		c.check(okCopy, "C11.R4", fn, "the chunk's Data is a copy of the shared buffer", fn.Pos(), "util.CopySlice(...) or the encoder's copied result", "the chunk's Data aliases the reused write buffer: the next chunk overwrites it")
 		// Reset deferred or after the read
 		for _, r := range resets {
-			if _, isDefer := r.(*ssa.Defer); isDefer {
+			if _, isDefer := r.(*ssa.Defer); isDefer && r.Parent() == fn {
 				c.ok("C11.R4", fn, "writeBuffer.Reset after the copy", r.Pos(), "deferred")
 				continue
 			}
@@ -373,7 +387,7 @@ func ruleC11R5(c *Ctx) {
 	// encodeChunkParams: ID <- chunk.id, NumRecords <- chunk.numRecords
 	for _, m := range [][2]string{{"output/fluentdforward.encodeChunkParams.ID", "output/fluentdforward.intermediateChunk.id"}, {"output/fluentdforward.encodeChunkParams.NumRecords", "output/fluentdforward.intermediateChunk.numRecords"}} {
 		ok := false
-		for _, st := range storesToField(fn, m[0]) {
+		for _, st := range c.storesToFieldR(fn, m[0]) {
 			if fieldOf(st.Val) == m[1] {
 				ok = true
 			}
